@@ -1,9 +1,9 @@
 SPECIFICATION Spec
 CONSTANTS
   T = 3
-  Timeouts <- MCTimeouts
-  MaxOps = 4
-  OpsAllowed <- AllOps
+  Timeouts <- WaitTimeouts
+  MaxOps = 2
+  OpsAllowed <- WaitOps
   Busy = 2
 INVARIANT CallbacksOnce
 INVARIANT WaitTiming
